@@ -34,10 +34,19 @@ def check_spec(acc, spec, tier):
     ref = Counter(U.brute(spec))
     nsol = sum(ref.values())
     variants = [(spec, "posted")] + [(s, "permuted") for s in posting_orders(spec, tier)]
+    if len(spec["vars"]) != len(spec["doms"]) or any(d != j for j, (d, _) in enumerate(spec["vars"])):
+        from mc.props.C13 import r_api  # the same problem declared through Problem.add_variable / add_variables
+
+        for api in ("add_variable", "add_variables"):
+            r = r_api(spec, api)
+            if r:
+                variants.append((r[1], "api"))
     for vs, vtag in variants:
         cfgs = S.configs_for(vs, tier, full=SC.family_of(spec) in ("F3", "F4"))
         if vtag == "permuted" and tier == "quick":
             cfgs = cfgs[:2] + cfgs[4:5]
+        if vtag == "api":
+            cfgs = cfgs[:1] + cfgs[4:5]
         for cfg in cfgs:
             o = S.run(vs, cfg, "enumerate")
             acc.c["runs"] += 1
